@@ -148,7 +148,11 @@ namespace vsym
     SymReal(unsigned long long i) : SymReal(double(i)) {}
     static SymReal raw(int id, double sh) { SymReal r; r.id = id; r.magic = MAGIC; r.sh = sh; return r; }
     static SymReal var(const std::string& name, double shadow) { int id = mk_var(name, shadow); return raw(id, ctx().nodes[size_t(id)].c); }
+#ifdef VSYM_IMPLICIT_DOUBLE
+    operator double() const { chk(); return sh; }   // opt-in (statistics/logging sinks that take a double); drops the symbolic value
+#else
     explicit operator double() const { chk(); return sh; }
+#endif
     explicit operator float() const { chk(); return float(sh); }
     explicit operator long double() const { chk(); return (long double)sh; }
     explicit operator int() const { chk(); return int(sh); }
